@@ -11,31 +11,35 @@
              [np_getitem], [np_flat], [np_count_nonfill].
    Elements are an arbitrary type V with a decidable equality veqb (_utils.equivalent).
 
-   FULL STATEMENT (what the property asks; FALSE of the code as it stands):
+   FULL STATEMENT (what the property asks):
      forall sh fill ops, shape_ok sh -> forallb (op_valid sh) ops = true ->
        forall ix, abs fill (run veqb sh fill ops) ix = fold_left (np_assign sh) ops (np_full fill) ix
-   where op_valid = "NumPy accepts the assignment".  It is refuted by each of the witnesses below;
-   the proved part restricts every assignment of the history to [op_dom sh] = op_valid and the
-   named clauses
-          nonempty_key         the key is not the empty tuple ()
-          value_ndim_clause    the value has no more axes than the key has slices
-          fancy_in_range       integer-list keys hold indices in [0, extent) only
-          fancy_nonempty       integer-list keys are not empty
-          fancy_value_clause   the value of an integer-list key is 0-d or has exactly the lists' length
-          (boolean-mask keys are outside the domain altogether: the code rejects them)
-   and reads to [read_dom sh] = nonempty_key / fancy_in_range / no mask.
-   Keys may also be general basic indices with Ellipsis (KIndex: the model runs agent c02b's whole
-   normalize_index, Model/CooIndex.v, linked to NumPy's expansion/resolution by normalize_link);
-   clauses for them: index_no_newaxis (a None in an ASSIGNMENT key is rejected by _setitem; the
-   property itself says "newaxis-free"), index_no_arrays (index arrays inside a basic key: outside
-   the key grammar), index_no_zero_step, index_value_ndim_clause.
+   where op_valid = "NumPy accepts the assignment".
+   It is PROVED AS IT STANDS for keys of integers and slices — the empty key () included, every
+   start / stop / step, scalar or array values with any number of leading axes of extent 1
+   (dok_refines_dense_basic) — and for full-dimension integer-list keys (negative entries wrap, empty
+   lists, repeated entries: the last wins) and boolean masks over a 1-d array with a 0-d or 1-d
+   value (length-1 values broadcast).  The defects that used to restrict it were repaired in /repo:
+   D1, D4, double normalisation (f6512bb, 97946a9); unnormalised index sequences, masks read as
+   integers, empty lists (b72190a, 336daf5); length-1 values (d195a7a); leading axes of extent 1
+   (6eae3a6); the empty key (e6d97fc).  The model describes the code as it is now; the old witnesses
+   are regression Examples in Proofs/DOKP.v (dok_former_defects_fixed, dok_round7_defects_fixed).
+   What is still FALSE of the code, each with a witness below, and excluded by [op_dom sh]:
+          KMask, n-d            a single n-d boolean array as key is refused (dok_mask_refuted)
+          fancy_value_clause    an integer-list / mask key with a value of ndim > 1, e.g. shape (1, n):
+                                ValueError, pinned by the test suite (dok_fancy_value_ndim_refuted)
+          view0d_clause         a 0-d VIEW as target (x[..., i] of a 1-d x) with a one-element array
+                                value (dok_view0d_refuted)
+          index_no_newaxis      a None in an ASSIGNMENT key (the property itself says "newaxis-free")
+          index_no_arrays       index arrays inside a basic key: outside the key grammar
+   Reads ([read_dom sh]): everything except an n-d mask, index arrays inside a basic key and a
+   zero step (which NumPy rejects).
+   General basic indices (KIndex: Ellipsis, None) run agent c02b's whole normalize_index
+   (Model/CooIndex.v), linked to NumPy's expansion / resolution by normalize_link.
    EXTENSION (elements Z): histories of raw values cast to an integer / boolean dtype mixed with
    asformat("coo") / from_coo round trips (hrun / np_hrun, Model/DOKExt.v), and reads through the
    real __getitem__ path (DokGetitem.dok_getitem: COO.from_iter, the COO mask kernels for every
-   cut-over schedule kf, DOK.from_coo), stated on top of C02's dok_getitem_den_partial.
-   There is NO clause about slices: every start/stop/step (any sign, any size, None) is inside
-   the domain — the former defects D1, D4 and the double normalisation of reads were repaired in
-   /repo (f6512bb, 97946a9) and the theorems below are proved for the code as it is now. *)
+   cut-over schedule kf, DOK.from_coo), stated on top of C02's dok_getitem_den_partial. *)
 From Coq Require Import ZArith List Bool.
 From Verif Require Import Py PyExt G_slicing G_dok PySlice Shape Slicing COO NpIndex CooIndex CooIndexNormP
      Convert DokGetitem DokGetitemP NpAssign DOK DOKP DOKExt DOKExtP.
@@ -55,6 +59,13 @@ Section C12.
       shape_ok sh -> forallb (op_dom sh) ops = true ->
       forall ix, abs fill (run veqb sh fill ops) ix = fold_left (np_assign sh) ops (np_full fill) ix.
   Proof. exact (dok_refines_dense_proof V veqb veqb_eq fill). Qed.
+
+  (* the FULL statement for keys of integers and slices *)
+  Theorem dok_refines_dense_basic :
+    forall (sh : shape) (ops : list (key * arr V)),
+      shape_ok sh -> forallb (basic_valid V sh) ops = true ->
+      forall ix, abs fill (run veqb sh fill ops) ix = fold_left (np_assign sh) ops (np_full fill) ix.
+  Proof. exact (dok_refines_dense_basic_proof V veqb veqb_eq fill). Qed.
 
   (* nnz = number of elements different from the fill value *)
   Theorem dok_nnz_partial :
@@ -99,32 +110,16 @@ Section C12.
 End C12.
 
 Print Assumptions dok_refines_dense_partial.
+Print Assumptions dok_refines_dense_basic.
 Print Assumptions dok_nnz_partial.
 Print Assumptions dok_pruned.
 Print Assumptions dok_read_spec_partial.
 Print Assumptions dok_todense_partial.
 Print Assumptions dok_tocoo_partial.
 
-(* ---- the full statement is false: one witness per clause (elements: Z) ---- *)
+(* ---- what is still false of the code: one witness per remaining clause (elements: Z) ---- *)
 
-(* d[[-1]] = 5 stores the key (-1,) *)
-Theorem dok_fancy_negative_refuted :
-  exists (sh : shape) (fill : Z) (op : key * arr Z) (ix : idx),
-    shape_ok sh /\ op_valid sh op = true /\
-    abs fill (step Z.eqb sh fill [] op) ix <> np_assign sh (np_full fill) op ix.
-Proof. exact dok_fancy_negative_refuted_proof. Qed.
-Print Assumptions dok_fancy_negative_refuted.
-
-(* d[[0, 1]] = [5] is rejected (ValueError) *)
-Theorem dok_fancy_value_refuted :
-  exists (sh : shape) (fill : Z) (op : key * arr Z) (ix : idx),
-    shape_ok sh /\ op_valid sh op = true /\
-    match fst op with KFancy ls => fancy_in_range ls sh && fancy_nonempty ls | _ => false end = true /\
-    abs fill (step Z.eqb sh fill [] op) ix <> np_assign sh (np_full fill) op ix.
-Proof. exact dok_fancy_value_refuted_proof. Qed.
-Print Assumptions dok_fancy_value_refuted.
-
-(* d[mask] = 5 is rejected (IndexError) *)
+(* a single n-d boolean array as key: d[mask2d] = 5 is rejected (IndexError) *)
 Theorem dok_mask_refuted :
   exists (sh : shape) (fill : Z) (op : key * arr Z) (ix : idx),
     shape_ok sh /\ op_valid sh op = true /\
@@ -132,21 +127,21 @@ Theorem dok_mask_refuted :
 Proof. exact dok_mask_refuted_proof. Qed.
 Print Assumptions dok_mask_refuted.
 
-(* d[0:2] = [[1, 2]] is rejected (ValueError) *)
-Theorem dok_value_ndim_refuted :
+(* d[[0, 1]] = np.array([[5, 6]]) is rejected (ValueError: ndim of the value > 1) *)
+Theorem dok_fancy_value_ndim_refuted :
   exists (sh : shape) (fill : Z) (op : key * arr Z) (ix : idx),
     shape_ok sh /\ op_valid sh op = true /\
     abs fill (step Z.eqb sh fill [] op) ix <> np_assign sh (np_full fill) op ix.
-Proof. exact dok_value_ndim_refuted_proof. Qed.
-Print Assumptions dok_value_ndim_refuted.
+Proof. exact dok_fancy_value_ndim_refuted_proof. Qed.
+Print Assumptions dok_fancy_value_ndim_refuted.
 
-(* d[()] = 5 is rejected (NotImplementedError; IndexError on a 1-d array) *)
-Theorem dok_empty_key_refuted :
+(* d = DOK((3,)); d[..., -1] = np.array([5]) is rejected (ValueError); NumPy broadcasts into the 0-d view *)
+Theorem dok_view0d_refuted :
   exists (sh : shape) (fill : Z) (op : key * arr Z) (ix : idx),
     shape_ok sh /\ op_valid sh op = true /\
     abs fill (step Z.eqb sh fill [] op) ix <> np_assign sh (np_full fill) op ix.
-Proof. exact dok_empty_key_refuted_proof. Qed.
-Print Assumptions dok_empty_key_refuted.
+Proof. exact dok_view0d_refuted_proof. Qed.
+Print Assumptions dok_view0d_refuted.
 
 (* ==================================================================== extension (elements: Z) *)
 
@@ -181,7 +176,7 @@ Print Assumptions dok_roundtrip_state.
 Theorem dok_real_read_partial :
   forall (kf : nat -> nat) (dt : dtype) (sh : shape) (fill : Z) (ops : list hop) (ix : index),
     shape_ok sh -> sh <> [] -> dtype_ok dt = true -> forallb (hop_dom dt sh) ops = true ->
-    no_zero_step ix = true -> coo_ix_ok sh ix -> all_arrays_of ix = None ->
+    no_zero_step ix = true -> coo_ix_ok sh ix -> fancy_key ix = false ->
     match np_index sh ix with
     | Raise e => real_getitem kf sh fill (hrun dt sh fill ops) ix = Raise e /\ e = IndexError
     | Ok (sh', g) =>
